@@ -28,6 +28,10 @@ DEC = {
 LEGACY = ["[C]", "[=C]", "[Branch1_1]", "[Branch1_2]", "[Branch2_3]", "[Expl=Ring1]", "[Expl#Ring1]",
           "[Expl/Ring1]", "[Expl\\Ring2]", "[C@@Hexpl]", "[N+expl]", "[=Fe++expl]", "[Cexpl]", "[Ring1]",
           "[Branch1]", "[F]"]
+# second legacy alphabet: the same atom with different bond prefixes, elements ending in e / x / p / l,
+# spellings that need standardising, and things that must stay invalid
+LEGACY2 = ["[C]", "[N+expl]", "[=N+expl]", "[#Cexpl]", "[Cexpl]", "[=Cexpl]", "[Seexpl]", "[=Seexpl]", "[Clexpl]", "[Alexpl]",
+           "[Feexpl]", "[O-expl]", "[/C@Hexpl]", "[nHexpl]", "[Xxexpl]", "[Branch1_2]", "[Expl=Ring1]"]
 
 TABLES = {
     "default": "default",
